@@ -71,7 +71,7 @@ Proof. exact refract_transmits. Qed.
 Theorem C11_tir_iff_sines : forall mu d n, vnorm2 d = 1 -> n <> vzero ->
   (rf_a mu d n * rf_a mu d n < rf_b mu n <-> 1 < mu * mu * (vnorm2 (vcross d n) / vnorm2 n)).
 Proof. exact tir_iff_sines. Qed.
-Theorem C11_refract_same_index : forall cap err d n, n <> vzero -> 0 <= err -> refract_dir_opt (S cap) err 1 d n = Some d.
+Theorem C11_refract_same_index : forall cap err d n, n <> vzero -> vdot d n <> 0 -> 0 <= err -> refract_dir_opt (S cap) err 1 d n = Some d.
 Proof. exact refract_same_index. Qed.
 Theorem C11_refract_any_length_and_sign : forall k, k <> 0 -> forall cap err mu d n, n <> vzero -> 0 < mu -> vdot d n <> 0 ->
   refract_dir_opt cap err mu d (vscale k n) = refract_dir_opt cap err mu d n.
